@@ -125,7 +125,7 @@ class Extract:
         N = e1.Norm(self.c, env)
         if n.get("k") == "mcall" and n["name"] == "checked_sub":
             a, b = N.norm(n["recv"]), N.norm(n["args"][0])
-            return a - b, Rat.atom(e1.cmp_atom("Ge", a, b))
+            return a - b, Rat.atom(e1.cmp_atom("Ge", a, b, integer=True))   # usize: same canonical atom as an explicit `a >= b`
         if n.get("k") == "blk" and n["b"]["stmts"] and n["b"]["tail"] is not None and n.get("lbl") is None and depth < 3:
             # a block of pure lets followed by the Option expression (e.g. an inlined helper)
             sub = dict(env)
@@ -366,7 +366,7 @@ class Extract:
                 srcv = None
             self.block_of(s["body"], loops + [(("iter", id(s)), pretty(it), None, None, None)], guards)
             self.iter_sources = getattr(self, "iter_sources", {})
-            self.iter_sources[id(s)] = (it, [h for (_, h) in pat_binds(s["pat"])])
+            self.iter_sources[id(s)] = (it, [h for (_, h) in pat_binds(s["pat"])], [n_ for (n_, _) in pat_binds(s["pat"])])
             return
         if k == "if":
             c = strip(s["c"])
